@@ -1002,6 +1002,14 @@ func (interp *Interpreter) cfg(root *node, sc *scope, importPath, pkgName string
 				n.typ = c0.typ
 			case aShl, aShr:
 				if c0.typ.untyped {
+					if c0.rval.IsValid() && c1.rval.IsValid() {
+						// A constant shift of an untyped constant is an untyped integer constant,
+						// whatever the type expected by the context, which is checked when
+						// the constant is used.
+						if n.typ = c0.typ; !isInt(n.typ.TypeOf()) {
+							n.typ = untypedInt(n)
+						}
+					}
 					break
 				}
 				n.typ = c0.typ
